@@ -96,7 +96,7 @@ def tlc(spec, cfg_text, workdir, env=None, workers=1, xmx="3g", timeout=3000, ex
         e.update(env)
     cmd = ["timeout", str(timeout), "java", "-cp", TLA_JAR + ":/opt/veriftools/tla/*", "tlc2.TLC",
            "-workers", str(workers), "-metadir", os.path.join(workdir, "meta"), "-cleanup",
-           "-noGenerateSpecTE", "-config", cfg] + (extra or []) + [os.path.join(SPEC, spec + ".tla")]
+           "-noGenerateSpecTE", "-checkpoint", "0", "-config", cfg] + (extra or []) + [os.path.join(SPEC, spec + ".tla")]
     p = run(cmd, env=e, check=False, timeout=timeout + 30, cwd=SPEC)
     shutil.rmtree(tmp, ignore_errors=True)
     shutil.rmtree(os.path.join(workdir, "meta"), ignore_errors=True)
